@@ -6,7 +6,7 @@ from registry import HARNESSES, CHECKS, RULES, ASSUMPTIONS
 HARNESSES.update(F.harness_defs())
 
 ROOT = B.ROOT
-EVID = os.path.join(ROOT, "evidence")
+EVID = os.environ.get("VERIF_EVIDENCE_DIR") or os.path.join(ROOT, "evidence")   # sensitivity experiments write elsewhere
 ASAN_OPTS = "handle_abort=1:allocator_may_return_null=1:max_allocation_size_mb=1024:detect_leaks=0:abort_on_error=0:exitcode=3"
 UBSAN_OPTS = "print_stacktrace=1:halt_on_error=1:exitcode=3"
 
